@@ -57,6 +57,17 @@ def build():
         r matches Ok(v) ==> (es_hash(*alg) matches Some(h) ==> exists|rr: Seq<u8>, ss: Seq<u8>| crate::openssl::ecdsa::ecdsa_valid(self.inner_key.ident@, hash_spec(h, data@), rr, ss)
             && v@ == crate::openssl::bn::left_pad(rr, ec_size(self.key_type)) + crate::openssl::bn::left_pad(ss, ec_size(self.key_type))), //@C15.signature_is_made_with_the_digest_of_the_declared_algorithm,C04.signature_is_made_with_the_digest_of_the_declared_algorithm
 """)})
+    HF = "acme_common/src/crypto/openssl_hash.rs"
+    u.verify(HF, "HashFunction::hash", "crypto", props=["C15", "C04", "C05"], fns={"hash": FnSpec(ret="r", rewrites=[
+        ("T-MAP", r"\b(?P<f>sha256|sha384|sha512)\(data\)\.to_vec\(\)", r"crate::openssl::sha::digest_to_vec(crate::openssl::sha::\g<f>(data))", None)], sig="""
+    ensures r@ == hash_spec(*self, data@), //@C15.each_hash_function_is_the_sha2_digest_of_its_name,C04.each_hash_function_is_the_sha2_digest_of_its_name,C05.each_hash_function_is_the_sha2_digest_of_its_name
+""")})
+    u.verify(HF, "HashFunction::native_digest", "crypto", props=["C15", "C04", "C01"], fns={"native_digest": FnSpec(ret="r", sig="""
+    ensures r.id == digest_id(*self), //@C15.each_hash_function_is_the_sha2_digest_of_its_name,C04.each_hash_function_is_the_sha2_digest_of_its_name,C01.each_hash_function_is_the_sha2_digest_of_its_name
+""")})
+    u.verify(HF, "HashFunction::hmac", "crypto", props=["C04"], fns={"hmac": FnSpec(ret="r", sig="""
+    ensures r matches Ok(v) ==> hmac_valid(*self, key@, data@, v@), //@C04.external_binding_mac_is_the_hmac_of_the_declared_digest
+""")})
     u.verify(K, "KeyPair::sign_rsa", "crypto", props=["C15", "C04"], fns={"sign_rsa": FnSpec(ret="r", sig="""
     ensures r matches Ok(v) ==> rsa_pkcs1_valid(self.inner_key.ident@, hash_func.id, data@, v@), //@C15.rsa_signature_is_pkcs1_v1_5_over_the_given_digest,C04.rsa_signature_is_pkcs1_v1_5_over_the_given_digest
 """)})
@@ -169,7 +180,14 @@ impl KeyPair {
     // the recorded key type is the type of the OpenSSL key it wraps
     pub open spec fn wf(&self) -> bool { self.inner_key.kind@ == kind_of(self.key_type) }
 }
-pub uninterp spec fn hash_spec(h: HashFunction, data: Seq<u8>) -> Seq<u8>;
+// the digest each HashFunction stands for
+pub open spec fn hash_bits(h: HashFunction) -> int { match h { BaseHashFunction::Sha256 => 256, BaseHashFunction::Sha384 => 384, BaseHashFunction::Sha512 => 512 } }
+pub open spec fn hash_spec(h: HashFunction, data: Seq<u8>) -> Seq<u8> { crate::openssl::sha::sha2(hash_bits(h), data) }
+pub open spec fn digest_id(h: HashFunction) -> u8 { match h { BaseHashFunction::Sha256 => 1u8, BaseHashFunction::Sha384 => 2u8, BaseHashFunction::Sha512 => 3u8 } }
+// mac is the HMAC of data under key with that digest
+pub open spec fn hmac_valid(h: HashFunction, key: Seq<u8>, data: Seq<u8>, mac: Seq<u8>) -> bool {
+    crate::openssl::sign::sig_made(crate::openssl::pkey::hmac_ident(key), crate::openssl::rsa::Padding::PKCS1.id, Some(digest_id(h)), data, mac)
+}
 // RFC 8037 OKP JWK of an EdDSA key (get_eddsa_jwk is not under contract: its members are this uninterpreted map)
 pub uninterp spec fn okp_jwk(k: KeyPair, thumbprint: bool) -> Map<Seq<char>, Seq<char>>;
 // the JWK of a key pair: with alg / use for the CA, or the RFC 7638 thumbprint input (required members only)
@@ -207,10 +225,6 @@ impl vstd::std_specs::cmp::PartialEqSpecImpl for JwsSignatureAlgorithm {
 """
 
 TRUSTED = """
-impl BaseHashFunction {
-    #[verifier::external_body]
-    pub fn hash(&self, data: &[u8]) -> (r: Vec<u8>) ensures r@ == hash_spec(*self, data@) { unimplemented!() }
-}
 impl std::fmt::Display for KeyType { #[verifier::external_body] fn fmt(&self, f: &mut std::fmt::Formatter) -> std::fmt::Result { unimplemented!() } }
 impl std::fmt::Display for JwsSignatureAlgorithm { #[verifier::external_body] fn fmt(&self, f: &mut std::fmt::Formatter) -> std::fmt::Result { unimplemented!() } }
 impl KeyPair {
